@@ -51,8 +51,10 @@ def shape_cat(s):
         return s["s"]
     if "c" in s:
         return "coll"
-    if "w" in s:
+    if "w" in s or "wn" in s:
         return "wrap"
+    if "o" in s:
+        return shape_cat(s["o"])
     k = s["k"]
     return "struct" if k in ("struct", "root") else "inline" if k == "inline" else "coll"
 
@@ -100,9 +102,30 @@ def is_container_kind(d):
     return k not in SCALAR_KINDS
 
 
+def value_classes(d):
+    """Python value classes a declaration takes, at the precision of the model's `tagFits` (Sem/Alias.lean):
+    "seq" (list / deque / set / tuple — Array, Deque, Set and Tuple fields all take a list), "map" (dict or
+    Structure instance — Map and structure fields), "atom" (anything else)"""
+    k = d["k"]
+    if k in ("anyOf", "oneOf", "allOf"):
+        out = set()
+        for x in d["fields"]:
+            out |= value_classes(x)
+        return out
+    if k in ("seqAny", "seqOf", "seqPos", "setAny", "setOf", "tupleOf", "tuplePos"):
+        return {"seq"}
+    if k in ("mapAny", "mapOf", "struct"):
+        return {"map"}
+    if k in ("anything", "notF"):
+        return {"seq", "map", "atom"}
+    return {"atom"}
+
+
 def normalize_wrappers(d):
-    """make the option a multi-field wrapper takes for a container value unambiguous: scalar options plus at most
-    one container option, no Anything next to other options (generator post-processing, in place)"""
+    """which option of a multi-field wrapper takes a value is decided by the MODEL from the value's shape (first
+    option the value fits: `Shape.wrapN`), so several container options are fine; what the generator still ensures
+    is that the shape decides: at most one option per container value class ("seq", "map"), and no NotField option
+    (whether a NotField takes a value is a validation question).  Generator post-processing, in place."""
     if isinstance(d, list):
         for x in d:
             normalize_wrappers(x)
@@ -110,21 +133,16 @@ def normalize_wrappers(d):
     if not isinstance(d, dict):
         return d
     if d.get("k") in ("anyOf", "oneOf", "allOf"):
-        opts, seen_container = [], False
+        opts, seen = [], set()
         for x in d["fields"]:
-            if x["k"] in ("anything", "notF"):
+            if x["k"] in ("notF", "anything"):
                 continue
-            if is_container_kind(x):
-                if seen_container:
-                    continue
-                seen_container = True
+            vc = value_classes(x) - {"atom"}
+            if vc & seen:
+                continue
+            seen |= vc
             opts.append(x)
-        opts = opts or [d["fields"][0]]
-        # `AnyOf.serialize` delegates to its last non-None option, `AllOf.serialize` to its first: put the container
-        # option there, so that a container value is always handed to the option that declares it
-        cont = [x for x in opts if is_container_kind(x)]
-        rest = [x for x in opts if not is_container_kind(x)]
-        d["fields"] = (cont + rest) if d["k"] == "allOf" else (rest + cont)
+        d["fields"] = opts or [d["fields"][0]]
     for v in d.values():
         normalize_wrappers(v)
     return d
@@ -171,6 +189,10 @@ def merge_shapes(a, b):
             return {"c": a["c"], "item": merge_shapes(a["item"], b["item"])}
         if "w" in a and "w" in b and a["w"] == b["w"]:
             return {"w": a["w"], "inner": merge_shapes(a["inner"], b["inner"])}
+        if "wn" in a and "wn" in b and a["wn"] == b["wn"] and len(a["opts"]) == len(b["opts"]):
+            return {"wn": a["wn"], "pick": a["pick"], "opts": [merge_shapes(x, y) for x, y in zip(a["opts"], b["opts"])]}
+        if "o" in a and "o" in b:
+            return {"o": merge_shapes(a["o"], b["o"])}
     return a
 
 
@@ -180,6 +202,102 @@ def _item_shape(d, v, op):
     for e in els[1:]:
         sh = merge_shapes(sh, shape_for(d, e, op))
     return sh
+
+
+_DELEGATION = {}
+
+
+def delegated_option(k, fields):
+    """index of the option `<wrapper>.serialize` hands every value to ("first" when the source shows no fixed
+    delegation): AnyOf -> its last non-None option, AllOf -> its first option (read off multified_wrappers.py)"""
+    if not _DELEGATION:
+        from extract import aliasing as X
+        _DELEGATION.update(X.wrapper_delegation())
+    how = _DELEGATION.get(k, "first-fit")
+    if how == "first":
+        return 0
+    if how == "last-non-none":
+        idx = [i for i, x in enumerate(fields) if x["k"] != "noneF"]
+        return idx[-1] if idx else len(fields) - 1
+    if how == "first-non-none":
+        idx = [i for i, x in enumerate(fields) if x["k"] != "noneF"]
+        return idx[0] if idx else 0
+    if how == "last":
+        return len(fields) - 1
+    return "first"
+
+
+TAG_FITS = {"array": ("list", "deque"), "deque": ("list", "deque"), "arrayPos": ("list", "deque"), "dequePos": ("list", "deque"),
+            "set": ("set", "frozenset", "list"), "immSet": ("set", "frozenset", "list"),
+            "tuple": ("tuple", "list"), "tuplePos": ("tuple", "list"), "map": ("dict",),
+            "struct": ("inst", "dict"), "inline": ("inst", "dict"), "root": ("inst", "dict")}
+
+
+def py_fits(shape, v):
+    """mirror of `fits` (Sem/Alias.lean) on Python values — used ONLY to name the table site to blame in a finding
+    key and to see which site a witness exercises; the correspondence verdict comes from the model"""
+    if shape in ("any", "untyped"):
+        return True
+    if "s" in shape:
+        if AP.node_tag(v) is not None:
+            return False
+        code = AP.atom_code(v)
+        return code in (2, 3) if shape["s"] == "number" else code == 4 if shape["s"] == "string" else True
+    if "c" in shape or "k" in shape:
+        kind = shape.get("c") or shape["k"]
+        return AP.node_tag(v) in TAG_FITS.get(kind, ()) if kind in TAG_FITS else True
+    if "w" in shape:
+        return True
+    if "o" in shape:
+        return py_fits(shape["o"], v)
+    fit = [py_fits(x, v) for x in shape["opts"]]
+    return all(fit) if shape["wn"] == "allOf" else any(fit)
+
+
+def py_pick(shape, v):
+    opts = shape["opts"]
+    if shape["pick"] == "first":
+        return next((i for i, x in enumerate(opts) if py_fits(x, v)), len(opts))
+    i = shape["pick"]
+    return i if i < len(opts) and py_fits(opts[i], v) else len(opts)
+
+
+def _child(v, key):
+    if isinstance(v, Structure):
+        return v.__dict__.get(key)
+    if isinstance(v, dict):
+        for k, x in v.items():
+            if str(k) == key:
+                return x
+        return None
+    if isinstance(v, (list, tuple, collections.deque)):
+        return v[int(key)] if key.isdigit() and int(key) < len(v) else None
+    return None
+
+
+def resolve_shape(shape, v):
+    """the single-option shape the value selects (every `wn` node replaced by the `w` node of the option the value
+    fits, `o` nodes dropped): the form `site_chain` / `responsible_site` walk"""
+    if not isinstance(shape, dict):
+        return shape
+    if "s" in shape:
+        return shape
+    if "o" in shape:
+        return resolve_shape(shape["o"], v)
+    if "wn" in shape:
+        i = py_pick(shape, v)
+        if i >= len(shape["opts"]):
+            return {"w": shape["wn"], "inner": "untyped"}
+        return {"w": shape["wn"], "inner": resolve_shape(shape["opts"][i], v)}
+    if "w" in shape:
+        return {"w": shape["w"], "inner": resolve_shape(shape["inner"], v)}
+    if "c" in shape:
+        els = _elems(v) or [None]
+        item = resolve_shape(shape["item"], els[0])
+        for e in els[1:]:
+            item = merge_shapes(item, resolve_shape(shape["item"], e))
+        return {"c": shape["c"], "item": item}
+    return {"k": shape["k"], "fields": [[n, resolve_shape(fs, _child(v, n))] for n, fs in shape["fields"]]}
 
 
 def shape_for(d, v, op=None):
@@ -212,16 +330,13 @@ def shape_for(d, v, op=None):
     if k == "notF":
         return {"w": "notF", "inner": "untyped"}      # whatever a NotField lets through has no declared type
     if k in ("anyOf", "oneOf", "allOf"):
-        if op in OUTPUT_FIELD_OPS and k in ("anyOf", "allOf"):
-            # AnyOf.serialize hands the value to its LAST non-None option, AllOf.serialize to its FIRST option,
-            # whatever the value is; an option that does not fit the value falls back to Field.serialize (generic)
-            non_none = [x for x in d["fields"] if x["k"] != "noneF"] or d["fields"]
-            chosen = non_none[-1] if k == "anyOf" else d["fields"][0]
-            if not type_ok(chosen, v) or (AP.node_tag(v) is not None and not is_container_kind(chosen)):
-                return {"w": k, "inner": "untyped"}
-            return {"w": k, "inner": shape_for(chosen, v, op)}
-        opts = [x for x in d["fields"] if type_ok(x, v)] or d["fields"]
-        return {"w": k, "inner": shape_for(opts[0], v, op)}
+        # ALL options go to the model, which picks the first one the value fits (`Shape.wrapN`, Pick.firstFit).
+        # `AnyOf.serialize` / `AllOf.serialize` (fast serialization, <field>.serialize) hand the value to a FIXED option
+        # whatever the value is — which one is read off the source (extract/aliasing.wrapper_delegation)
+        pick = "first"
+        if op in OUTPUT_FIELD_OPS:
+            pick = delegated_option(k, d["fields"])
+        return {"wn": k, "pick": pick, "opts": [shape_for(x, v, op) for x in d["fields"]]}
     raise ValueError(f"shape_for: {k}")
 
 
@@ -236,8 +351,19 @@ def struct_shape(d, v, kind, result=None, op=None):
         else:
             fields.append([n, shape_for(fd, sub, op)])
     kept = None if result is None else set(result.__dict__)
-    fields += [[x, "untyped"] for x in _keys(v) if x not in names and (kept is None or x in kept)]
-    return {"k": kind, "fields": fields}
+    extras = [[x, "untyped"] for x in _keys(v) if x not in names and (kept is None or x in kept)]
+    if kind == "root" and d.get("immutable"):
+        # an immutable owner (ImmutableStructure: `Structure.__setattr__`; immutable=True fields: `Field.__set__` /
+        # `Field.__get__`) puts its defensive deep copy in front of every field: `Shape.owned`
+        fields = [[n, {"o": fs}] for n, fs in fields]
+        if d.get("immOwner") != "fields":
+            extras = [[n, {"o": fs}] for n, fs in extras]
+    return {"k": kind, "fields": fields + extras}
+
+
+def owned_field_shape(decl, sh):
+    """shape of ONE field of the class `decl` (setattr, <field>.serialize): behind the owner's copy if it is immutable"""
+    return {"o": sh} if decl.get("immutable") else sh
 
 
 def prune_extras(shape, snk):
@@ -247,6 +373,10 @@ def prune_extras(shape, snk):
         return shape
     if "w" in shape:
         return {"w": shape["w"], "inner": prune_extras(shape["inner"], snk)}
+    if "o" in shape:
+        return {"o": prune_extras(shape["o"], snk)}
+    if "wn" in shape:
+        return {"wn": shape["wn"], "pick": shape["pick"], "opts": [prune_extras(x, snk) for x in shape["opts"]]}
     if "c" in shape:
         el = _elems(snk)
         if not el:
@@ -259,7 +389,7 @@ def prune_extras(shape, snk):
         if isinstance(snk, Structure):
             kept = set(snk.__dict__)
             return {"k": shape["k"], "fields": [[n, prune_extras(fs, snk.__dict__.get(n))] for n, fs in shape["fields"]
-                                                if fs != "untyped" or n in kept]}
+                                                if fs not in ("untyped", {"o": "untyped"}) or n in kept]}
         if isinstance(snk, (list, tuple, collections.deque)):
             return {"k": shape["k"], "fields": [[n, prune_extras(fs, snk[int(n)] if n.isdigit() and int(n) < len(snk) else None)]
                                                 for n, fs in shape["fields"]]}
@@ -444,7 +574,7 @@ def build_imm_class(owner):
     cls = type("ImmOwner_" + owner, (ImmutableStructure if owner == "structure" else Structure,), body)
     _IMM_CACHE[owner] = inner
     decl = {"k": "struct", "name": cls.__name__, "required": [], "addl": True, "fields": copy.deepcopy(IMM_DECL_FIELDS),
-            "immutable": True}
+            "immutable": True, "immOwner": owner}
     return cls, decl
 
 
@@ -457,6 +587,7 @@ def imm_values(owner, as_doc, only=None):
             "tu": seq([1, [2]], 5),
             "ar": [seq([1]), seq({"z": [2]})],
             "mp": {"k": seq([1], seq([2]))},
+            "opt": [1, [2], {"k": [3]}],
             "extra_t": seq({"z": [1]}, [2])}
     if owner == "fields":
         vals.pop("extra_t")      # an undeclared key of a mutable Structure is no immutable field: shared by design
@@ -708,19 +839,22 @@ def situation(case):
     if op in ("fastSerialize", "fieldSerialize"):
         _make_nested_fast(ctx, cls)
     x = cls(**_kw(case, ctx))
+    for rk, rv in (case.get("raw") or []):
+        # a payload no option of a multi-field wrapper takes cannot be stored through validation: put it there directly
+        x.__dict__[rk] = dump.load_value(rv, ctx)
     fdecl = dict((n, f) for n, f in decl["fields"])
     if op == "setattr":
         name = case["field"]
         src = None
         if case.get("imm"):
-            value = imm_values(case["imm"], as_doc=False)["any" if name == "opt" else name]
+            value = imm_values(case["imm"], as_doc=False)[case.get("vkey") or ("any" if name == "opt" else name)]
         elif case.get("fromInstance"):
             # x.f = y.f: the value is the typed wrapper of another instance of the same class
             src = cls(**_kw(case, ctx))
             value = getattr(src, name)
         else:
             value = dump.load_value(case["value"], ctx)
-        shape = shape_for(fdecl[name], value) if name in fdecl else "untyped"
+        shape = owned_field_shape(decl, shape_for(fdecl[name], value) if name in fdecl else "untyped")
 
         def call():
             setattr(x, name, value)
@@ -757,7 +891,7 @@ def situation(case):
         name = case["field"]
         field = cls.get_all_fields_by_name()[name]
         internal = x.__dict__.get(name)
-        shape = shape_for(fdecl[name], internal, op)
+        shape = owned_field_shape(decl, shape_for(fdecl[name], internal, op))
 
         def call():
             doc = field.serialize(getattr(x, name))
@@ -778,7 +912,7 @@ def run_impl(case):
     res = {"topKind": sit.top_kind}
     before = json.dumps(AP.deep_canon(sit.args), sort_keys=True, default=str)
     world0 = sit.world() if sit.world else None
-    cells, src = AP.heapify(sit.source)
+    cells, src = AP.heapify(sit.source, typed=True)
     graph = AP.object_graph(sit.source)
     index = {}
     # heapify and object_graph enumerate the same objects; addresses come from heapify's order
@@ -799,6 +933,11 @@ def run_impl(case):
     if sit.world:
         res["world_same"] = sit.world() == world0
     res["shape"] = sit.shape
+    try:
+        res["rshape"] = resolve_shape(sit.shape, sit.source)
+    except Exception as e:
+        res["rshape"] = sit.shape
+        res["rshape_error"] = f"{type(e).__name__}: {e}"[:200]
     if not res["ok"]:
         return res
     gk = AP.object_graph(sink)
@@ -845,8 +984,9 @@ def _heap_order(root):
 # ------------------------------------------------------------------ Lean side
 
 def immutable_output(case):
-    """an ImmutableStructure deep-copies what it is given and hands every value out through the deep-copying
-    accessor, which the heap model (one table for all classes) does not describe: oracle only for these"""
+    """the case's owner is immutable (an ImmutableStructure / a Structure of immutable=True fields): it deep-copies what
+    it is given and hands every value out through the deep-copying accessor (`Shape.owned` in the model); for such an
+    owner EVERY site is in the statement's scope, and sharing of objects that are themselves immutable is by design"""
     return bool(case.get("cls", {}).get("immutable") or case.get("imm")) and \
         case["op"] in OUTPUT_OPS + ("construct", "setattr", "deserialize")
 
@@ -854,7 +994,7 @@ def immutable_output(case):
 def line(case, impl):
     if case["op"] == "api":
         return {"suite": "alias", "skip": True}      # public entry points outside the heap model: snapshots only
-    if "cells" not in impl or immutable_output(case) or oracle_only(case):
+    if "cells" not in impl or oracle_only(case):
         return {"suite": "alias", "skip": True}
     return {"suite": "alias", "op": case["op"], "shape": impl["shape"], "cells": impl["cells"], "src": impl["src"],
             "topKind": impl.get("topKind", "root")}
@@ -924,7 +1064,7 @@ def judge(case, impl, model):
                           [list(q) for q, _ in impl.get("poked", [])]
             prefixes = [vis_path[:n] for n in range(len(vis_path) + 1) if vis_path[:n] in known_paths]
             blame_path = prefixes[0] if prefixes else vis_path
-            site, chain = responsible_site(impl["shape"], blame_path, modes)
+            site, chain = responsible_site(impl.get("rshape", impl["shape"]), blame_path, modes)
             if site is None:
                 continue
             if not immutable_output(case) and not all(site_in_scope(op, k) for _, k, _ in chain):
@@ -1232,10 +1372,48 @@ def field_sites():
              ("tuplePos", "none")]
     sites += [(k, c) for k in COLL_KINDS for c in COLL_CATS]
     sites += [(k, c) for k in WRAP_KINDS for c in WRAP_CATS + ["untyped"]]
-    return [s for s in sites if witness(*s) is not None]
+    sites = [s for s in sites if witness(*s) is not None or (s[0] in ("oneOf", "allOf") and s[1] == "untyped")]
+    return sites + [("owner", "none")]
+
+
+NOFIT = {"m": [["z", {"l": [1]}]]}       # a dict: fits neither Array[Integer] nor String
 
 
 def witness_case(op, kind, cat):
+    if kind == "owner":
+        # the defensive copy of an immutable owner in front of an Anything field (which on its own keeps / hands out
+        # the very object): constructor / Deserializer of an ImmutableStructure, first assignment of an immutable=True
+        # field, and the three output operations on an ImmutableStructure
+        base = {"suite": "alias", "witness": [op, kind, cat], "pokeLimit": 120}
+        if op in ("construct", "deserialize"):
+            return dict(base, op=op, imm="structure", only=["opt"])
+        if op == "setattr":
+            return dict(base, op=op, imm="fields", only=["ts"], field="opt", vkey="opt")
+        if op in ("serialize", "fastSerialize"):
+            return dict(base, op=op, imm="structure", only=["opt"], via="Serializer")
+        if op == "fieldSerialize":
+            return dict(base, op=op, imm="structure", only=["opt"], field="opt")
+        return None
+    if kind in ("anyOf", "oneOf", "allOf") and cat == "untyped" and not (kind == "anyOf" and op in OUTPUT_FIELD_OPS):
+        # no option takes the value: input operations are given one (a dict), output operations find one put into
+        # the instance behind validation's back (for AnyOf.serialize the existing witness below is of that kind already)
+        d = {"k": kind, "fields": [ARR_INT] if kind == "allOf" else [ARR_INT, STR]}
+        cls = _cls(f"W_{kind}_nofit", [["f", d]])
+        base = {"suite": "alias", "cls": cls, "witness": [op, kind, cat], "pokeLimit": 120}
+        ok = [["f", {"l": [1, 2]}]]
+        if op == "construct":
+            return dict(base, op=op, kw=[["f", NOFIT]])
+        if op == "setattr":
+            return dict(base, op=op, kw=ok, field="f", value=NOFIT)
+        if op == "deserialize":
+            return dict(base, op=op, doc={"m": [["f", NOFIT]]})
+        if op == "serialize":
+            return dict(base, op=op, kw=ok, via="Serializer", raw=[["f", NOFIT]])
+        if op == "fieldSerialize":
+            return dict(base, op=op, kw=ok, field="f", raw=[["f", NOFIT]])
+        if op == "fastSerialize":
+            return dict(base, op=op, kw=ok, raw=[["f", NOFIT]])
+        return None
     w = witness(kind, cat)
     if w is None:
         return None
